@@ -135,3 +135,113 @@ Definition comptime_arg (e : cexpr) : result outcome := consume SITE_COMPTIME_AR
 Definition global_body (e : cexpr) : result outcome :=
   do v <- get_const e;
   Ok (match v with Runtime => NotConst | Unknown => Silent | Const => Accepted DData end).
+
+(* ==== multi-file worlds ======================================================================
+   The tree model above inlines the body a reference resolves to.  Which body that is, is itself
+   decided by the code: `Expr::LocalGlobal(name)` names a global of the file the expression LIVES
+   in (`loc.file()` of the location whose body is being walked — not the file being inferred), and
+   `file.name` names a global of the file the member's receiver denotes.  The world model keeps
+   references symbolic and transcribes that lookup: get_const's worklist carries (file, expr)
+   pairs, const_data recurses with the file of the body it enters. *)
+Definition SITE_NO_GLOBAL : N := 3200%N.   (* global_bodies[&name] index panic (`global_body`) *)
+
+Inductive wexpr : Type :=
+| WInt (n : N)
+| WGlobal (g : N)                         (* Expr::LocalGlobal *)
+| WMember (f g : N)                       (* Expr::Member whose previous has type Ty::File f *)
+| WLocal (mutable : bool) (value : option wexpr)
+| WComptime (safe : bool) (res : cdata)
+| WParam (arg : cdata)
+| WOther (is_type_or_file : bool).
+
+Record wglobal : Type := mkwg { wg_extern : bool; wg_finished : bool; wg_body : wexpr }.
+Definition world : Type := N -> N -> option wglobal.     (* file -> name -> definition *)
+
+Section World.
+Variable w : world.
+
+Definition visit_w (cur : N) (e : wexpr) : result (verdict * list (N * wexpr)) :=
+  match e with
+  | WInt _ | WComptime _ _ | WParam _ => Ok (Const, [])
+  | WOther ty => Ok (if ty then Const else Runtime, [])
+  | WGlobal g =>
+      match w cur g with
+      | None => Crash SITE_NO_GLOBAL
+      | Some gd =>
+          if wg_extern gd then Ok (Runtime, [])
+          else if negb (wg_finished gd) then Ok (Unknown, [])
+          else Ok (Const, [(cur, wg_body gd)])
+      end
+  | WMember f g =>
+      match w f g with
+      | None => Ok (Unknown, [])              (* !global_exists *)
+      | Some gd =>
+          if wg_extern gd then Ok (Runtime, [])
+          else if negb (wg_finished gd) then Ok (Unknown, [])
+          else Ok (Const, [(f, wg_body gd)])
+      end
+  | WLocal mu value =>
+      let kids := match value with Some v => [(cur, v)] | None => [] end in
+      if mu then Ok (Runtime, kids)
+      else match value with None => Ok (Unknown, kids) | Some _ => Ok (Const, kids) end
+  end.
+
+Fixpoint get_const_w (fuel : nat) (to_check : list (N * wexpr)) : result verdict :=
+  match to_check with
+  | [] => Ok Const
+  | (cur, e) :: rest =>
+    match fuel with
+    | O => OutOfFuel
+    | S f =>
+      do r <- visit_w cur e;
+      match fst r with
+      | Const => get_const_w f (rest ++ snd r)
+      | v => Ok v
+      end
+    end
+  end.
+
+(* const_data(loc, expr): [cur] = loc.file() *)
+Fixpoint const_data_w (fuel : nat) (cur : N) (e : wexpr) : result (option cdata) :=
+  match fuel with
+  | O => OutOfFuel
+  | S f =>
+    match e with
+    | WInt n => Ok (Some (DInt n))
+    | WComptime safe res => Ok (if safe then Some res else None)
+    | WParam d => Ok (Some d)
+    | WOther ty => Ok (if ty then Some DType else None)
+    | WLocal _ (Some v) => const_data_w f cur v
+    | WLocal _ None => Crash SITE_LOCAL_NOVALUE
+    | WGlobal g =>
+        match w cur g with            (* Fqn { file: loc.file(), name } *)
+        | Some gd => if wg_extern gd then Crash SITE_NO_GLOBAL else const_data_w f cur (wg_body gd)
+        | None => Crash SITE_NO_GLOBAL
+        end
+    | WMember file g =>
+        match w file g with
+        | Some gd => if wg_extern gd then Crash SITE_NO_GLOBAL else const_data_w f file (wg_body gd)
+        | None => Crash SITE_NO_GLOBAL
+        end
+    end
+  end.
+
+Definition consume_w (site : N) (want_int : bool) (fuel : nat) (cur : N) (e : wexpr) : result outcome :=
+  do v <- get_const_w fuel [(cur, e)];
+  match v with
+  | Runtime => Ok NotConst
+  | Unknown => Ok Silent
+  | Const =>
+      do d <- const_data_w fuel cur e;
+      match d with
+      | Some (DInt n) => Ok (Accepted (DInt n))
+      | Some d' => if want_int then Crash site else Ok (Accepted d')
+      | None => Crash site
+      end
+  end.
+
+Definition array_len_w := consume_w SITE_ARRAY_LEN true.
+Definition discriminant_w := consume_w SITE_DISCRIM true.
+Definition comptime_arg_w := consume_w SITE_COMPTIME_ARG false.
+
+End World.
